@@ -547,8 +547,8 @@ class Client(base_client.BaseClient):
                 self._trigger_event('disconnect', n, reason)
                 if not will_reconnect:
                     self._trigger_event('__disconnect_final', n)
-            self.namespaces = {}
             self.connected = False
+        self.namespaces = {}
         self.callbacks = {}
         self._binary_packet = None
         self.sid = None
